@@ -2,6 +2,11 @@ package main
 
 import (
 	"fmt"
+	"go/types"
+	"sort"
+	"strings"
+
+	"golang.org/x/tools/go/ssa"
 )
 
 // lemmaVC: a lemma is an SMT goal over spec functions only (no code).
@@ -26,6 +31,84 @@ func lemmaVC(p *Program, cs *Contracts, l *Lemma) (vc *VC, errs string) {
 	g := env.evalBool(l.Expr)
 	vc.oblige("lemma."+l.Name, "lemma", "true", g, l.Src)
 	return vc, ""
+}
+
+// inventoryVC: scans the SSA of every function of the package tree for calls matching the pattern whose k-th
+// argument (0 = receiver) has a static type containing ArgType (looking through MakeInterface), and demands
+// that the enclosing source function is one of the allowed ones. The obligation is `true` or `false`.
+func inventoryVC(p *Program, iv *Inventory) *VC {
+	vc := newVC(p, "inventory."+iv.Name)
+	var offenders, found []string
+	seen := map[string]bool{}
+	for f := range p.AllFns {
+		if f.Pkg == nil || !strings.HasPrefix(f.Pkg.Pkg.Path(), iv.PkgPrefix) || len(f.Blocks) == 0 {
+			continue
+		}
+		top := f
+		for top.Parent() != nil {
+			top = top.Parent()
+		}
+		owner := canonName(top)
+		for _, b := range f.Blocks {
+			for _, ins := range b.Instrs {
+				c, ok := ins.(ssa.CallInstruction)
+				if !ok {
+					continue
+				}
+				cc := c.Common()
+				n := ""
+				var args []ssa.Value
+				if cc.IsInvoke() {
+					n = ifaceMethodName(cc)
+					args = append([]ssa.Value{cc.Value}, cc.Args...)
+				} else if sc := cc.StaticCallee(); sc != nil {
+					n = canonName(sc)
+					args = cc.Args
+				}
+				if n == "" || !patMatches(iv.Call, n) || iv.Arg >= len(args) {
+					continue
+				}
+				a := args[iv.Arg]
+				t := a.Type()
+				if mi, ok := a.(*ssa.MakeInterface); ok {
+					t = mi.X.Type()
+				}
+				if !strings.Contains(typeKey(t), iv.ArgType) {
+					if _, isIface := t.Underlying().(*types.Interface); !isIface {
+						continue // statically another type
+					}
+					// statically unknown object type: counts as a possible match
+				}
+				key := owner + "@" + p.SSA.Fset.Position(ins.Pos()).String()
+				if seen[key] {
+					continue
+				}
+				seen[key] = true
+				okFn := false
+				for _, al := range iv.Allowed {
+					if patMatches(al, owner) {
+						okFn = true
+					}
+				}
+				pos := strings.TrimPrefix(p.SSA.Fset.Position(ins.Pos()).String(), p.RepoDir+"/")
+				if okFn {
+					found = append(found, shortName(owner)+" ("+pos+")")
+				} else {
+					offenders = append(offenders, shortName(owner)+" ("+pos+")")
+				}
+			}
+		}
+	}
+	sort.Strings(offenders)
+	sort.Strings(found)
+	goal := "true"
+	src := iv.Src + "   [matching calls: " + strings.Join(found, "; ") + "]"
+	if len(offenders) > 0 {
+		goal = "false"
+		src = iv.Src + "   [NOT ALLOWED: " + strings.Join(offenders, "; ") + "]"
+	}
+	vc.oblige("inventory."+iv.Name, "inventory", "true", goal, src)
+	return vc
 }
 
 func tryReplay(id string, j *job, base string) (bool, map[string]any) {
